@@ -4,6 +4,7 @@ import (
 	"fmt"
 	"reflect"
 	"runtime"
+	"runtime/debug"
 	"strings"
 )
 
@@ -48,7 +49,27 @@ type accessRec struct {
 	tid   int
 	clock int
 	name  string
-	where string
+	pcs   [6]uintptr
+	npc   int
+}
+
+func (a *accessRec) where() string {
+	fr := runtime.CallersFrames(a.pcs[:a.npc])
+	var out []string
+	for {
+		f, more := fr.Next()
+		fn := f.Function
+		if i := strings.LastIndex(fn, "/"); i >= 0 {
+			fn = fn[i+1:]
+		}
+		if !strings.HasPrefix(fn, "coop.") {
+			out = append(out, fmt.Sprintf("%s:%d", fn, f.Line))
+		}
+		if !more || len(out) >= 4 {
+			break
+		}
+	}
+	return strings.Join(out, " <- ")
 }
 
 type locState struct {
@@ -61,29 +82,78 @@ var (
 	hbEnabled bool
 )
 
-// EnableHB switches the access monitor on/off and clears its state.
+var gcPercentBefore = -2
+
+// EnableHB switches the access monitor on/off and clears its state. While it is on the garbage collector is off: locations
+// are identified by address, and an address must not be handed to a new object while the execution runs.
 func EnableHB(on bool) {
+	if on && !hbEnabled {
+		gcPercentBefore = debug.SetGCPercent(-1)
+	}
+	if !on && hbEnabled && gcPercentBefore != -2 {
+		debug.SetGCPercent(gcPercentBefore)
+	}
 	hbEnabled = on
 	locs = map[uintptr]*locState{}
 }
 
-func caller() string {
-	var pcs [6]uintptr
-	n := runtime.Callers(3, pcs[:])
-	fr := runtime.CallersFrames(pcs[:n])
-	var out []string
-	for {
-		f, more := fr.Next()
-		fn := f.Function
-		if i := strings.LastIndex(fn, "/"); i >= 0 {
-			fn = fn[i+1:]
-		}
-		out = append(out, fmt.Sprintf("%s:%d", fn, f.Line))
-		if !more || len(out) >= 4 {
-			break
-		}
+// AccessF reports an access to the field f() points to; f may dereference nil (then nothing is reported).
+func AccessF(f func() interface{}, name string, write bool) {
+	if !hbEnabled || mode != Managed || cur == nil {
+		return
 	}
-	return strings.Join(out, " <- ")
+	var p interface{}
+	func() {
+		defer func() { _ = recover() }()
+		p = f()
+	}()
+	if p == nil {
+		return
+	}
+	v := reflect.ValueOf(p)
+	if v.Kind() != reflect.Ptr || v.IsNil() {
+		return
+	}
+	Access(v.Pointer(), name, write)
+}
+
+// AccessStructF reports an access to every field of the struct f() points to (a whole-struct copy or assignment).
+func AccessStructF(f func() interface{}, name string, write bool) {
+	if !hbEnabled || mode != Managed || cur == nil {
+		return
+	}
+	var p interface{}
+	func() {
+		defer func() { _ = recover() }()
+		p = f()
+	}()
+	if p == nil {
+		return
+	}
+	v := reflect.ValueOf(p)
+	if v.Kind() != reflect.Ptr || v.IsNil() || v.Elem().Kind() != reflect.Struct {
+		return
+	}
+	accessFields(v.Elem(), name, write, 0)
+}
+
+func accessFields(s reflect.Value, name string, write bool, depth int) {
+	t := s.Type()
+	for i := 0; i < s.NumField(); i++ {
+		f := s.Field(i)
+		if !f.CanAddr() {
+			continue
+		}
+		ft := t.Field(i)
+		if pk := ft.Type.PkgPath(); pk == "sync" || strings.HasSuffix(pk, "/vsync") || strings.HasSuffix(pk, "/vkeymutex") {
+			continue
+		}
+		if f.Kind() == reflect.Struct && depth < 3 && strings.HasPrefix(ft.Type.PkgPath(), "tkestack.io/galaxy/") {
+			accessFields(f, name+"."+ft.Name, write, depth+1)
+			continue
+		}
+		Access(f.Addr().Pointer(), name+"."+ft.Name, write)
+	}
 }
 
 // Access records a read or write of the shared location loc by the running thread.
@@ -101,6 +171,7 @@ func Access(loc uintptr, name string, write bool) {
 		locs[loc] = ls
 	}
 	me := &accessRec{tid: t.ID, clock: t.VC[t.ID], name: name}
+	me.npc = runtime.Callers(2, me.pcs[:])
 	ordered := func(a *accessRec) bool {
 		if a == nil || a.tid == t.ID {
 			return true
@@ -108,9 +179,11 @@ func Access(loc uintptr, name string, write bool) {
 		return a.clock <= vcAt(t.VC, a.tid)
 	}
 	report := func(a *accessRec, kind string) {
-		me.where = caller()
+		if len(cur.Races) >= 20 {
+			return
+		}
 		cur.Races = append(cur.Races, fmt.Sprintf("%s on %s: thread %d at [%s] vs thread %d at [%s]",
-			kind, name, a.tid, a.where, t.ID, me.where))
+			kind, name, a.tid, a.where(), t.ID, me.where()))
 	}
 	if !ordered(ls.lastW) {
 		report(ls.lastW, map[bool]string{true: "write/write", false: "write/read"}[write])
@@ -121,11 +194,9 @@ func Access(loc uintptr, name string, write bool) {
 				report(r, "read/write")
 			}
 		}
-		me.where = caller()
 		ls.lastW = me
 		ls.reads = map[int]*accessRec{}
 	} else {
-		me.where = caller()
 		ls.reads[t.ID] = me
 	}
 }
